@@ -180,4 +180,15 @@ PROPS = {
                             'symbolic, ready <=> byte-for-byte membership (prefix / superstring / case variants are inside the same query); valueless or missing '
                             'name; `skip` as a bare attribute at every position among <= 3 attributes with symbolic separators, ready child still removed; '
                             'the keywords inside quoted values; symbolic tag names vs. the two configured names.'),
+    'C12': dict(jobs=props_pipe.c12_jobs, tv=('front', 'pipe'), assumptions=PIPE_ASSUME + [
+                    'indentation is counted in bytes (a tab is one column); whitespace-only inner lines may lose any number of blanks',
+                    'nested unwrap blocks: each block removes the columns [T, T+S) of its own inner lines in original coordinates (union for lines inside both)',
+                    'paths whose output line count differs from the expected one are dropped here (that is C13/C11 territory)'],
+                explanation='clean on unwrap-block documents in which every indentation is a symbolic blank/tab hole in front of a fixed prefix (none, 2 spaces, '
+                            'nested 2 spaces, tabs): per surviving inner line the removed columns are exactly [T, min(T+S, indent)) with T = tag indent, '
+                            'S = max(0, indent(first inner line) - T); blocks on the first line, nested ready elements and nested unwrap blocks included.'),
+    'C13': dict(jobs=props_pipe.c13_jobs, tv=('front', 'pipe'), assumptions=PIPE_ASSUME,
+                explanation='clean on block documents: b blank lines before and a after a removed default-strategy block (a, b = 0..4, every blank line a symbolic '
+                            'whitespace hole, indentation holes on every line, two blocks, pending parent, with/without final newline): surviving non-blank '
+                            'lines byte-for-byte in order, and exactly a+b-[a>0 and b>0] blank lines between the neighbours.'),
 }
